@@ -4,7 +4,10 @@
 EXTENDS Integers, Sequences, FiniteSets, TLC, Json, IOUtils
 RECURSIVE NoDivisorFrom(_, _)
 NoDivisorFrom(x, d) == IF d * d > x THEN TRUE ELSE IF x % d = 0 THEN FALSE ELSE NoDivisorFrom(x, d + 2)
-IsPrime(x) == x = 2 \/ (x >= 3 /\ x % 2 = 1 /\ NoDivisorFrom(x, 3))
+\* (a bounded quantifier instead of the linear recursion NoDivisorFrom, which defines the same predicate: TLC's evaluation stack
+\*  stays shallow also for 29-bit primes; 46340^2 < 2^31)
+DivBound(x) == IF x < 40000 THEN 200 ELSE IF x < 4000000 THEN 2000 ELSE 46340
+IsPrime(x) == x = 2 \/ (x >= 3 /\ x % 2 = 1 /\ \A d \in 3..DivBound(x) : d * d > x \/ x % d # 0)
 RECURSIVE BitLen(_)
 BitLen(x) == IF x = 0 THEN 0 ELSE 1 + BitLen(x \div 2)
 \* overflow-free modular arithmetic for moduli below 2^30 (TLC integers are 32-bit)
@@ -20,7 +23,10 @@ RECURSIVE OnlyP(_, _)
 OnlyP(x, p) == x = 1 \/ (x % p = 0 /\ OnlyP(x \div p, p))
 RECURSIVE LeastFactorFrom(_, _)
 LeastFactorFrom(x, d) == IF d * d > x THEN x ELSE IF x % d = 0 THEN d ELSE LeastFactorFrom(x, d + 1)
-IsPrimePower(x) == x >= 2 /\ OnlyP(x, LeastFactorFrom(x, 2))
+LeastFactor(x) == IF \E d \in 2..DivBound(x) : d * d <= x /\ x % d = 0
+                  THEN CHOOSE d \in 2..DivBound(x) : d * d <= x /\ x % d = 0 /\ \A c \in 2..(d - 1) : x % c # 0
+                  ELSE x
+IsPrimePower(x) == x >= 2 /\ OnlyP(x, LeastFactor(x))
 RECURSIVE LogP(_, _)
 LogP(x, p) == IF x = 1 THEN 0 ELSE 1 + LogP(x \div p, p)
 Evs == JsonDeserialize(IOEnv.TRACE_FILE)
